@@ -104,6 +104,13 @@ ADD4={
 }
 for k,(txt,tech) in ADD4.items():
     apply(k,txt,tech)
+ADD5={
+ "C15":("Also (K30, repaired): Merge never unlinks the segment that is still the active file (every removal in the per-segment loop sits behind a comparison with DB.ActiveFile.fileID).", ""),
+ "C10":("Also (K30, repaired): Merge never unlinks the segment that is still the active file, so commits made after a Merge are not appended to an unlinked file.", ""),
+ "C11":("Also (K30, repaired): Merge never unlinks the segment that is still the active file.", ""),
+}
+for k,(txt,tech) in ADD5.items():
+    apply(k,txt,tech)
 for k,(txt,tech) in ADD.items():
     t=T[k]
     marker=txt[:40]
